@@ -376,6 +376,7 @@ struct Rules {
     exprs: Vec<(String, String)>,       // normalised token string of an expression -> replacement text (R17)
     field_calls: Vec<String>,           // field names whose read access `X.f` becomes the accessor call `X.f()` (R19: the struct is opaque in the unit)
     drop_cfg: Vec<String>,              // statements carrying #[cfg(feature = "X")] for a listed X are dropped (R18)
+    keep_cfg: Vec<String>,              // statements carrying #[cfg(feature = "X")] for a listed X are kept, the attribute is dropped (R18b: the feature is ON in the verified configuration)
     after_method: Vec<(String, String)>, // method name -> ghost template ($idx = last index expression of the receiver, $recv = receiver)       // normalised callee path -> replacement of the whole call expression
     pub_super: bool,
     macro_call: Vec<(String, String)>,  // macro name -> fn name (args kept verbatim)
@@ -538,7 +539,7 @@ impl<'a, 'ast> Visit<'ast> for FnScan<'a> {
             }
         }
         // R18: a statement guarded by #[cfg(feature = "X")] for a feature that is off in the verified configuration is dropped
-        if !self.rules.drop_cfg.is_empty() {
+        if !self.rules.drop_cfg.is_empty() || !self.rules.keep_cfg.is_empty() {
             let attrs: &[syn::Attribute] = match s {
                 syn::Stmt::Macro(m) => &m.attrs,
                 syn::Stmt::Local(l) => &l.attrs,
@@ -557,6 +558,10 @@ impl<'a, 'ast> Visit<'ast> for FnScan<'a> {
                     if self.rules.drop_cfg.iter().any(|f| t == format!("#[cfg(feature=\"{}\")]", f)) {
                         self.push_edit(start, end, String::new(), "R18:drop-cfg-stmt", vec![]);
                         return;
+                    }
+                    if self.rules.keep_cfg.iter().any(|f| t == format!("#[cfg(feature=\"{}\")]", f)) {
+                        let (as_, ae) = brange(a);
+                        self.push_edit(as_, ae, String::new(), "R18b:cfg-attr-of-enabled-feature", vec![]);
                     }
                 }
             }
@@ -703,10 +708,31 @@ impl<'a, 'ast> Visit<'ast> for FnScan<'a> {
         if !self.rules.exprs.is_empty() {
             let mut n = String::new();
             norm_tokens(quote::ToTokens::to_token_stream(e), &mut n);
-            let n = n.replace(' ', "");
+            let mut n = n.replace(' ', "");
+            // outer attributes of the expression (e.g. #[cfg(feature = "async")] on an expression statement) are not part of the pattern
+            let attrs: &[syn::Attribute] = match e {
+                syn::Expr::MethodCall(x) => &x.attrs,
+                syn::Expr::Call(x) => &x.attrs,
+                syn::Expr::ForLoop(x) => &x.attrs,
+                syn::Expr::Assign(x) => &x.attrs,
+                syn::Expr::Field(x) => &x.attrs,
+                syn::Expr::Path(x) => &x.attrs,
+                syn::Expr::Macro(x) => &x.attrs,
+                _ => &[],
+            };
+            let mut s_from = brange(e).0;
+            for a in attrs.iter() {
+                let mut t = String::new();
+                norm_tokens(quote::ToTokens::to_token_stream(a), &mut t);
+                let t = t.replace(' ', "");
+                if n.starts_with(&t) {
+                    n = n[t.len()..].to_string();
+                    s_from = brange(a).1;
+                }
+            }
             if let Some((_, to)) = self.rules.exprs.iter().find(|(p, _)| *p == n).cloned() {
-                let (s0, e0) = brange(e);
-                self.push_edit(s0, e0, to, "R17:expr-rewrite", vec![]);
+                let (_, e0) = brange(e);
+                self.push_edit(s_from, e0, to, "R17:expr-rewrite", vec![]);
                 return;
             }
         }
@@ -1092,6 +1118,7 @@ fn main() {
                     "range-for" | "rev-range" => rules.rev_range = rest != "off",
                     "vec-for" => rules.vec_for = rest != "off",
                     "drop-cfg-stmt" => rules.drop_cfg = rest.split_whitespace().map(|s| s.to_string()).collect(),
+                    "keep-cfg-stmt" => rules.keep_cfg = rest.split_whitespace().map(|s| s.to_string()).collect(),
                     "field-call" => rules.field_calls = rest.split_whitespace().map(|s| s.to_string()).collect(),
                     "expr" => {
                         // @@rule expr «tokens of the expression» => replacement
@@ -1659,8 +1686,13 @@ fn main() {
                 if vacuity && !fd.trusted {
                     // vacuity probe: an unprovable assertion at function entry and at the start of every loop body
                     edits.push(Edit { pos: body_open + 1, end: body_open + 1, text: " proof { assert(false); } ".into(), rule: String::new(), kept: vec![], oline: 0, seq: 900_000 });
+                    let covered: Vec<(usize, usize)> = edits.iter().filter(|e| e.end > e.pos).map(|e| (e.pos, e.end)).collect();
                     for st in stmts.iter() {
                         if let Some((o, _)) = st.loop_body {
+                            // a loop that a rewrite replaced as a whole (R17) has no body in the generated text
+                            if covered.iter().any(|(a, b)| o + 1 > *a && o + 1 < *b) {
+                                continue;
+                            }
                             edits.push(Edit { pos: o + 1, end: o + 1, text: " proof { assert(false); } ".into(), rule: String::new(), kept: vec![], oline: 0, seq: 900_001 });
                         }
                     }
